@@ -174,3 +174,42 @@ Proof.
   unfold run_sparse in H. cbn [run] in H.
   exact (cg_no_breakdown_terminates_R (sp_rows s) (@sp_mul AR s) LO SYM (sp_cols s) b x0 max tol res x g Htol Hmax H).
 Qed.
+
+(* ---- any field: the solver-level CG facts for a symmetric storage ---- *)
+Section SymSparseField.
+Context {A : SArith}.
+Variable FL : FieldLaws (SA A).
+
+(* after at least one iteration the TRUE residual of the returned x is orthogonal to the initial residual *)
+Theorem cg_final_residual_orth_initial_sparse (s : sparse (SA A)) (b x0 : list (T (SA A))) max tol res x g :
+  wfS s -> sp_symmetric s ->
+  run_sparse CG s b x0 max tol = Ok (res, x, g) ->
+  g_exit g = 1%nat \/ (g_exit g = 2%nat /\ (1 <= max)%nat) ->
+  dot_raw (zipw sub b (sp_apply s x)) (zipw sub b (sp_apply s x0)) = zero.
+Proof.
+  intros Hwf Hsym H Hex.
+  destruct (run_sparse_square CG s b x0 max tol _ H) as (Hsq & Hb & Hx0).
+  pose proof (FL_RingLaws FL) as RL.
+  pose proof (sp_mul_LinOp RL s (sp_rows s) Hwf eq_refl (eq_sym Hsq)) as LO.
+  pose proof (sp_mul_SymOp RL s (sp_rows s) Hwf eq_refl (eq_sym Hsq) Hsym) as SYM.
+  destruct (run_sparse_tracks FL CG s b x0 max tol res x g Hwf H) as (Eg & _).
+  unfold run_sparse in H. cbn [run] in H.
+  destruct (solve_cg_residual_orth_initial FL (sp_rows s) (sp_mul s) LO SYM (sp_cols s) b x0 max tol res x g H Hex)
+    as (ax0 & Eax0 & Ho).
+  apply (sp_mul_Ok_inv RL) in Eax0 as ->; auto; [|lia]. now rewrite <- Eg.
+Qed.
+
+Theorem cg_breakdown_or_terminates_sparse (s : sparse (SA A)) (b x0 : list (T (SA A))) max tol res x g :
+  wfS s -> sp_symmetric s -> (sp_rows s + 2 <= max)%nat ->
+  run_sparse CG s b x0 max tol = Ok (res, x, g) ->
+  exists k, res = IOk k /\ (k <= sp_rows s + 1)%nat.
+Proof.
+  intros Hwf Hsym Hmax H.
+  destruct (run_sparse_square CG s b x0 max tol _ H) as (Hsq & Hb & Hx0).
+  pose proof (FL_RingLaws FL) as RL.
+  pose proof (sp_mul_LinOp RL s (sp_rows s) Hwf eq_refl (eq_sym Hsq)) as LO.
+  pose proof (sp_mul_SymOp RL s (sp_rows s) Hwf eq_refl (eq_sym Hsq) Hsym) as SYM.
+  unfold run_sparse in H. cbn [run] in H.
+  exact (cg_breakdown_or_terminates FL (sp_rows s) (sp_mul s) LO SYM (sp_cols s) b x0 max tol res x g Hmax H).
+Qed.
+End SymSparseField.
